@@ -1,6 +1,6 @@
 ---------------------------- MODULE ArbitratorMC ----------------------------
 (* Exhaustive bounded configurations of Arbitrator.  ArbitratorMC.cfg is the  *)
-(* repaired design (F8Fixed = F9Fixed = F15Fixed = TRUE): every invariant     *)
+(* repaired design (F8Fixed = F9Fixed = FccFixed = TRUE): every invariant     *)
 (* holds and no behaviour gets stuck short of the reference outcome           *)
 (* (CHECK_DEADLOCK).  The orchestrator re-runs it with one repair switched    *)
 (* off at a time and expects TLC to exhibit the corresponding finding.        *)
